@@ -1084,6 +1084,17 @@ def roundtrip_checks(ctx, batch, recipe, root, el_index, el, stream, parsed):
                               case=dict(case, request=req), expected=f"harness: {reason or 'representable'}",
                               observed=f"model: repr={fields.get('repr')}", stream=stream, no_failing_input=True)
                 return
+            m_dst = fields.get("dst") == "1"
+            if m_dst == o_doctype_unstable(forest):
+                ctx.corr_disagreements += 1
+                ctx.violation("DoctypeStable: the model's predicate and the harness' known-finding classifier disagree",
+                              case=dict(case, request=req), expected=f"harness: unstable={o_doctype_unstable(forest)}",
+                              observed=f"model: dst={fields.get('dst')}", stream=stream, no_failing_input=True)
+            if m_dst and fields["norm2"] != fields["norm"]:
+                ctx.corr_disagreements += 1
+                ctx.violation("the executable normal form is not idempotent on a DoctypeStable forest (contradicts normalise_idem)",
+                              case=dict(case, request=req), expected=fields["norm"], observed=fields["norm2"], stream=stream,
+                              no_failing_input=True)
             if not m_repr:
                 return
             ctx.count("trip:model-compared")
